@@ -9,6 +9,7 @@ import (
 	"time"
 
 	"github.com/form3tech-oss/f1/v2/internal/trigger/api"
+	"github.com/form3tech-oss/f1/v2/internal/trigger/constant"
 	"github.com/form3tech-oss/f1/v2/internal/verifh/kit"
 )
 
@@ -89,5 +90,50 @@ func TestC13(t *testing.T) {
 		o.Count("jitter", kit.Bucket(int64(j)))
 		o.Count("len", kit.Bucket(int64(ln)))
 		o.Case("jitter", []string{kit.I(bits(j)), kit.Ints(rates), kit.Ints(cosb)}, kit.Res(crashed, nil, kit.Ints(outs)), tags...)
+	}
+}
+
+// The trigger as the CLI builds it: constant rate, jitter, and a distribution that spreads every
+// period's value over its 100 ms sub-ticks. Jittered and un-jittered triggers are stepped side by
+// side; at every sub-tick their running totals stay within the fixed bound of composed_bound_ok
+// (C13_bounded at period ends plus at most one period's worth inside a period), for ever.
+func TestC13Composed(t *testing.T) {
+	o := kit.Get()
+	defer o.Close()
+	r := kit.NewRand(kit.Seed() + 131)
+	for i := 0; i < kit.N(40, 400); i++ {
+		rate := kit.Pick(r, int64(1), 1, 2, 5, 20, 100, r.Range(1, 500))
+		unit := kit.Pick(r, "1s", "1s", "500ms", "2s", "300ms")
+		jit := kit.Pick(r, int64(20), 50, 60, 75, 90, 99, r.Range(1, 99))
+		dist := kit.Pick(r, "random", "random", "regular")
+		spec := kit.I(rate) + "/" + unit
+		jr, err1 := constant.CalculateConstantRate(float64(jit), spec, dist)
+		pr, err2 := constant.CalculateConstantRate(0, spec, dist)
+		if err1 != nil || err2 != nil || jr.IterationDuration != pr.IterationDuration {
+			o.Fail("c13-composed-build", "constant trigger "+spec+" with distribution "+dist+" could not be built twice alike")
+			continue
+		}
+		steps := int(kit.Pick(r, int64(2000), 5000, 20000))
+		at := time.Unix(1_700_000_000, 0)
+		var sj, sp, maxd int64
+		neg := false
+		for k := 0; k < steps; k++ {
+			a, b := int64(jr.Rate(at)), int64(pr.Rate(at))
+			if a < 0 {
+				neg = true
+			}
+			sj, sp = sj+a, sp+b
+			if d := sj - sp; d > maxd {
+				maxd = d
+			} else if -d > maxd {
+				maxd = -d
+			}
+			at = at.Add(jr.IterationDuration)
+		}
+		if neg {
+			o.Fail("c13-composed-negative", "constant trigger "+spec+" with jitter "+kit.I(jit)+" and distribution "+dist+" emitted a negative value")
+		}
+		o.Count("distribution", dist)
+		o.Case("composed_bound_ok", []string{kit.I(jit), "100", kit.I(rate), kit.I(maxd)}, "T", "composed", "nt")
 	}
 }
